@@ -169,6 +169,9 @@ fn c18() -> usize {
                  j(serde_json::json!("null")), j(serde_json::json!({"a": 1, "b": 2})), j(serde_json::json!({"b": 2, "a": 1})), j(serde_json::json!([1])), Value::Char(Some('s')),
                  Value::Array(sea_query::ArrayType::Int, None), Value::Array(sea_query::ArrayType::BigInt, None), Value::Array(sea_query::ArrayType::Int, Some(Box::new(vec![]))), Value::Array(sea_query::ArrayType::Int, Some(Box::new(vec![Value::Int(Some(1))]))),
                  Value::Array(sea_query::ArrayType::BigInt, Some(Box::new(vec![])))]);
+    // pgvector payloads: NULL, the empty vector, vectors where one is a PREFIX of the other, signed zeros / NaN components
+    let pv = |xs: Vec<f32>| Value::Vector(Some(Box::new(pgvector::Vector::from(xs))));
+    pool.extend([Value::Vector(None), pv(vec![]), pv(vec![1.0, 2.0]), pv(vec![1.0, 2.0, 3.0]), pv(vec![1.0, 2.0, 4.0]), pv(vec![0.0]), pv(vec![-0.0]), pv(vec![f32::NAN]), pv(vec![2.0, 1.0])]);
     let mut n = 0usize;
     let mut bad = 0usize;
     let mut w = |input: String, obs: String, exp: &str| { if bad < 8 { witness("C18", input, obs, exp); } bad += 1; };
